@@ -6,5 +6,5 @@ id=$1; prop=$2; tier=${3:-quick}
 W=/tmp/seedrun/$id; rm -rf "$W" /tmp/seedrun/work-$id; mkdir -p /tmp/seedrun
 git -C /repo worktree add --detach "$W" HEAD >/dev/null 2>&1 || exit 2
 git -C "$W" apply /verif/seeded/$id/patch.diff 2>/dev/null || git -C "$W" apply -3 /verif/seeded/$id/patch.diff || { git -C /repo worktree remove --force "$W"; exit 2; }
-( cd /verif && VERIF_REPO="$W" VERIF_WORK=/tmp/seedrun/work-$id VERIF_REPLAY_DIR=/tmp/seedrun/replays-$id timeout 3000 ./check "$prop" "$tier" ) 2>&1 | cut -c1-400 | grep -E "^VIOLATION|^KNOWN|class=|exit [0-9]|ERROR|INCONCL|NON-REPRO"
+( cd /verif && VERIF_REPO="$W" VERIF_WORK=/tmp/seedrun/work-$id VERIF_REPLAY_DIR=/tmp/seedrun/replays-$id VERIF_EVIDENCE_DIR=/tmp/seedrun/evidence-$id timeout 3000 ./check "$prop" "$tier" ) 2>&1 | cut -c1-400 | grep -E "^VIOLATION|^KNOWN|class=|exit [0-9]|ERROR|INCONCL|NON-REPRO"
 git -C /repo worktree remove --force "$W"; rm -rf /tmp/seedrun/work-$id
